@@ -735,6 +735,11 @@ void run_begin(const RunCfg& cfg) {
     g_tasks[0].prio = 1000000 + (int64_t)(g_rng_sched.next() >> 20);
     g_tasks[0].spinning = false;
     g_tasks[0].spin_cnt = 0;
+    g_tasks[0].spin_epoch = 0;
+    g_tasks[0].plain_ctr = 0;  // the main task takes part in OpenMP teams: its sampling phase must not leak between runs
+    g_tasks[0].ws_idx = 0;
+    g_tasks[0].team = nullptr;
+    g_tasks[0].team_tid = 0;
     fold(cfg.seed);
 }
 
